@@ -59,7 +59,9 @@ class InterestTreeNode:
         remaining = []
         for entry in self.pending_list:
             if bytes(entry.implicit_sha256) == bytes(implicit_sha256):
-                entry.future.set_exception(InterestNack(nack_reason))
+                # The caller may have given up in this very loop iteration: its entry is still listed
+                if not entry.future.done():
+                    entry.future.set_exception(InterestNack(nack_reason))
             else:
                 remaining.append(entry)
         self.pending_list = remaining
@@ -78,7 +80,9 @@ class InterestTreeNode:
             else:
                 passed = False
             if passed:
-                entry.future.set_result(data)
+                # The caller may have given up in this very loop iteration: its entry is still listed
+                if not entry.future.done():
+                    entry.future.set_result(data)
             else:
                 unsatisfied_entries.append(entry)
         if unsatisfied_entries:
